@@ -183,6 +183,15 @@ pub fn check_case(tape: &[u16], rc: &mut RCase) -> Result<(), Failure> {
         };
         let embedded = match guard(|| from_bytes(&bytes, ver)) {
             Ok(Ok(AnyTir::V1Beta0(t))) => t,
+            Ok(Err(e))
+                if crate::dec::cbor_nesting_depth(&bytes).unwrap_or(0) > 256
+                    && format!("{:?}", e).contains("RecursionLimitExceeded")
+                    && rc.tolerated("embedded_ir_does_not_decode:nesting_beyond_decoder_limit") =>
+            {
+                // recorded (same root cause as C11's): the decoder stops at 256 levels of nesting
+                rc.label("known:nesting_beyond_decoder_limit");
+                continue;
+            }
             other => return Err(Failure::new("embedded_ir_does_not_decode", format!("{:?}", other.map(|r| r.map(|_| "ok"))), rendered())),
         };
         // same IR as lowering produces
